@@ -258,6 +258,7 @@ class CFG:
         self.inlined_bodies: List[List[ast.stmt]] = []   # instantiated (renamed) bodies, for syntax-directed rules
         self._used: Optional[Set[str]] = None
         self._flags: Dict[str, tuple] = {}
+        self._decided = None
         self.nodes: List[Node] = []
         self._cur_handler: Optional[HandlerInfo] = None
         self.entry = self._new("entry")
@@ -313,7 +314,134 @@ class CFG:
         return Frag(entry, outs)
 
     def _block(self, stmts: List[ast.stmt], ctxs) -> Frag:
-        return self._seq([self._stmt(s, ctxs) for s in stmts])
+        frags = []
+        i = 0
+        while i < len(stmts):
+            if self.inliner is not None and i + 1 < len(stmts) and isinstance(stmts[i + 1], ast.If) \
+                    and isinstance(stmts[i], (ast.Assign, ast.AnnAssign)):
+                fr = self._assign_then_if(stmts[i], stmts[i + 1], ctxs)
+                if fr is not None:
+                    frags.append(fr)
+                    i += 2
+                    continue
+            frags.append(self._stmt(stmts[i], ctxs))
+            i += 1
+        return self._seq(frags)
+
+    # -- `x = helper(...)` directly followed by `if <test on x>`: one continuation per return site of the helper
+    @staticmethod
+    def _value_class(v: Optional[ast.AST]):
+        """What is statically known about a returned expression: ('const', value) | 'notnone' | None (unknown)."""
+        if v is None:
+            return ("const", None)
+        if isinstance(v, ast.Constant):
+            return ("const", v.value)
+        if isinstance(v, (ast.Tuple, ast.List, ast.Dict, ast.Set, ast.JoinedStr, ast.ListComp, ast.DictComp, ast.SetComp, ast.GeneratorExp, ast.Lambda)):
+            return "notnone"
+        return None
+
+    def _assign_then_if(self, a, ifs: ast.If, ctxs) -> Optional[Frag]:
+        tgts = a.targets if isinstance(a, ast.Assign) else [a.target]
+        if len(tgts) != 1 or a.value is None:
+            return None
+        tg = tgts[0]
+        if isinstance(tg, ast.Name):
+            names = [tg.id]
+        elif isinstance(tg, ast.Tuple) and all(isinstance(e_, ast.Name) for e_ in tg.elts):
+            names = [e_.id for e_ in tg.elts]
+        else:
+            return None
+        tested = {x.id for x in ast.walk(ifs.test) if isinstance(x, ast.Name)}
+        if not (set(names) & tested):
+            return None
+        site = a.value
+        call = site.value if isinstance(site, ast.Await) else site
+        if not isinstance(call, ast.Call):
+            return None
+        t = self.inliner.target(self._resolve_fi(), site, self._inline_stack, "value")
+        if t is None:
+            return None
+        from .inline import InlineBlock
+        pre_frag, site2 = self._hoist_args(site, ctxs)
+        pre, body, _ret = self.inliner.instantiate(self.fi, t, site2, self._names_used(), want_ret=False)
+        self.inlined_bodies.append(list(pre) + list(body))
+        # flags: as for any statement that stores into these names / a compound statement
+        saved_flags = dict(self._flags)
+        stored = self._stores(a, deep=True) | self._stores(ifs, deep=True)
+        ictx = InlineCtx(None, t.qualname)
+        ictx.sites = []                 # [(assign node, outs)] one per return site
+        ictx.site_stmt = a
+        inner = tuple(ctxs) + (ictx,)
+        frs = ([pre_frag] if pre_frag is not None else []) + [self._stmt_plain(p_, ctxs) for p_ in pre]
+        start = self._new("stmt", None, ctxs, label="inline-begin")
+        start.extra["inline_begin"] = t.qualname
+        start.lineno = a.lineno
+        self._inline_stack.append(t.qualname)
+        if t.qualname not in self.inlined:
+            self.inlined.append(t.qualname)
+        saved_loops, self._loops = self._loops, []
+        try:
+            b = self._block(body, inner)
+            if b.entry is None or b.outs:
+                # falling off the end returns None
+                tail = self._stmt(ast.Return(value=None, lineno=a.lineno, col_offset=0), inner)
+                b = self._seq([b, tail]) if b.entry is not None else tail
+        finally:
+            self._loops = saved_loops
+            self._inline_stack.pop()
+        self._edge(start, b.entry, "n") if b.entry is not None else None
+        if not ictx.sites:
+            # the helper never returns normally
+            self._flags = self._drop_flags(saved_flags, stored)
+            return self._seq(frs + [Frag(start, [])])
+        t_all: List[Tuple[Node, str]] = []
+        f_all: List[Tuple[Node, str]] = []
+        def vclass(v):
+            c = self._value_class(v)
+            if c is None and isinstance(v, ast.Call) and dotted(v.func):
+                # an instance of a program class is never None
+                try:
+                    kind_, _obj = self.inliner.P.resolve_dotted(t.module, dotted(v.func))
+                except Exception:
+                    kind_ = None
+                if kind_ == "class":
+                    c = "notnone"
+            return c
+
+        for (anode, outs, vexpr) in ictx.sites:
+            decided = {}
+            if isinstance(tg, ast.Name):
+                decided[tg.id] = vclass(vexpr)
+            elif isinstance(vexpr, ast.Tuple) and len(vexpr.elts) == len(tg.elts) and not any(isinstance(x, ast.Starred) for x in vexpr.elts):
+                for nm, ve in zip(names, vexpr.elts):
+                    decided[nm] = vclass(ve)
+            self._decided = {k: v for k, v in decided.items() if v is not None}
+            self._flags = self._drop_flags(dict(saved_flags), stored)
+            try:
+                en, t_, f_ = self._cond(ifs.test, ctxs)
+            finally:
+                self._decided = None
+            self._connect(outs, en)
+            t_all.extend(t_)
+            f_all.extend(f_)
+        self._flags = self._drop_flags(dict(saved_flags), stored)
+        bodyf = self._block(ifs.body, ctxs)
+        self._flags = self._drop_flags(dict(saved_flags), stored)
+        orelse = self._block(ifs.orelse, ctxs)
+        self._flags = self._drop_flags(saved_flags, stored)
+        outs2: List[Tuple[Node, str]] = []
+        if bodyf.entry is None:
+            outs2.extend(t_all)
+        else:
+            self._connect(t_all, bodyf.entry)
+            outs2.extend(bodyf.outs)
+        if orelse.entry is None:
+            outs2.extend(f_all)
+        else:
+            self._connect(f_all, orelse.entry)
+            outs2.extend(orelse.outs)
+        head = self._seq(frs + [Frag(start, [])])
+        return Frag(head.entry, outs2)
 
     # -- exception routing
     def _route(self, node: Node, exc: Optional[str], ctxs):
@@ -373,6 +501,36 @@ class CFG:
                     outs = frag.outs
         return outs
 
+    def _decide_atom(self, e: ast.AST) -> Optional[bool]:
+        """Truth value of test atom *e* when it is about a name whose value class is known on this path
+        (continuation of one return site of an inlined helper)."""
+        d = getattr(self, "_decided", None)
+        if not d:
+            return None
+        if isinstance(e, ast.Name) and e.id in d:
+            c = d[e.id]
+            if isinstance(c, tuple):
+                return bool(c[1])
+            return None
+        if isinstance(e, ast.Compare) and len(e.ops) == 1 and isinstance(e.left, ast.Name) and e.left.id in d \
+                and isinstance(e.comparators[0], ast.Constant):
+            c = d[e.left.id]
+            k = e.comparators[0].value
+            op = e.ops[0]
+            if isinstance(op, (ast.Is, ast.IsNot)) and k is None:
+                isnone = isinstance(c, tuple) and c[1] is None
+                return isnone if isinstance(op, ast.Is) else not isnone
+            if isinstance(op, (ast.Eq, ast.NotEq)):
+                if isinstance(c, tuple):
+                    try:
+                        r = (c[1] == k)
+                    except Exception:
+                        return None
+                    return r if isinstance(op, ast.Eq) else not r
+                if k is None and c == "notnone":
+                    return isinstance(op, ast.NotEq)
+        return None
+
     # -- conditions with short-circuit
     def _cond(self, e: ast.AST, ctxs) -> Tuple[Node, List[Tuple[Node, str]], List[Tuple[Node, str]]]:
         if isinstance(e, ast.BoolOp):
@@ -403,6 +561,11 @@ class CFG:
         if isinstance(e, ast.UnaryOp) and isinstance(e.op, ast.Not):
             en, t, f = self._cond(e.operand, ctxs)
             return en, f, t
+        dec = self._decide_atom(e)
+        if dec is not None:
+            n = self._new("test", e, ctxs)
+            n.extra["decided"] = dec
+            return (n, [(n, "t")], []) if dec else (n, [], [(n, "f")])
         if isinstance(e, ast.Name) and e.id in self._flags:
             return self._cond(self._flags[e.id][0], ctxs)
         if isinstance(e, ast.Call) and isinstance(e.func, ast.Name) and e.func.id == "bool" and len(e.args) == 1 and not e.keywords:
@@ -516,7 +679,7 @@ class CFG:
                 exc_override = None
                 if isinstance(s, ast.Raise) and isinstance(s.exc, ast.Call):
                     # `raise self._helper(...)`: the exception class is the one the helper constructs
-                    t_ = self.inliner.target(self.fi, s.exc, self._inline_stack, "value")
+                    t_ = self.inliner.target(self._resolve_fi(), s.exc, self._inline_stack, "value")
                     if t_ is not None and not getattr(t_, "pseudo", False):
                         from .program import walk_local as _wl
                         made = {exc_name_of(r_.value) for r_ in _wl(t_.node) if isinstance(r_, ast.Return) and r_.value is not None}
@@ -558,6 +721,18 @@ class CFG:
             return Frag(n, [(n, "n")])
         if isinstance(s, ast.Return):
             idx = self._inline_index(ctxs)
+            if idx is not None and getattr(ctxs[idx], "sites", None) is not None:
+                ictx = ctxs[idx]
+                a0 = ictx.site_stmt
+                a2 = copy.copy(a0)
+                a2.value = s.value if s.value is not None else ast.Constant(value=None)
+                n = self._new("stmt", a2, ctxs)
+                n.lineno = getattr(s, "lineno", n.lineno)
+                n.extra["inline_return"] = ictx.callee
+                if s.value is not None and may_raise_expr(s.value):
+                    self._route(n, None, ctxs)
+                ictx.sites.append((n, self._unwind(n, ctxs, idx + 1), s.value))
+                return Frag(n, [])
             if idx is not None and ctxs[idx].cond:
                 ictx = ctxs[idx]
                 v = s.value
@@ -732,6 +907,28 @@ class CFG:
         raise AnalysisError("unmodelled statement %s in %s" % (type(s).__name__, self.fi.qualname))
 
     # -- inlining of helpers unknown to the rules (see inline.py)
+    def _resolve_fi(self) -> FuncInfo:
+        """The function in whose scope a call met right now is resolved: the function under construction, or - inside
+        an inlined body - the helper it came from (its module's imports and globals), with `self` still an
+        instance of the class of the function under construction."""
+        if not self._inline_stack:
+            return self.fi
+        q = self._inline_stack[-1]
+        prog = self.inliner.P if self.inliner is not None else None
+        f = prog.functions.get(q) if prog is not None else None
+        if f is None or f.module is self.fi.module:
+            return self.fi
+        cache = self.__dict__.setdefault("_rfi_cache", {})
+        r = cache.get(q)
+        if r is None:
+            import copy as _copy
+            r = _copy.copy(f)
+            if self.fi.cls is not None and f.cls is not None and self.fi.cls.is_subclass_of(f.cls):
+                r.cls = self.fi.cls
+            r.qualname = self.fi.qualname         # recursion / identity checks are about the function under construction
+            cache[q] = r
+        return r
+
     @staticmethod
     def _inline_index(ctxs) -> Optional[int]:
         skip = 0
@@ -770,7 +967,7 @@ class CFG:
             chosen = None
             for site in sites:
                 usage = "yieldfrom" if isinstance(site, ast.YieldFrom) else "value"
-                t = self.inliner.target(self.fi, site, self._inline_stack, usage)
+                t = self.inliner.target(self._resolve_fi(), site, self._inline_stack, usage)
                 if t is not None:
                     chosen = (site, t)
                     break
@@ -796,7 +993,7 @@ class CFG:
         call = e.value if isinstance(e, ast.Await) else e
         if not isinstance(call, ast.Call):
             return None
-        t = self.inliner.target(self.fi, site, self._inline_stack, "value")
+        t = self.inliner.target(self._resolve_fi(), site, self._inline_stack, "value")
         if t is None:
             return None
         pre_frag, site2 = self._hoist_args(site, ctxs)
@@ -838,7 +1035,7 @@ class CFG:
         call = site.value if isinstance(site, ast.Await) else site
         if not isinstance(call, ast.Call):
             return None
-        t = self.inliner.target(self.fi, site, self._inline_stack, "value")
+        t = self.inliner.target(self._resolve_fi(), site, self._inline_stack, "value")
         if t is None:
             return None
         pre_frag, site2 = self._hoist_args(site, ctxs)
@@ -938,14 +1135,19 @@ class CFG:
         return self._unwind(n, ctxs, down_to, label)
 
     def _try_splice(self, s, ctxs) -> Optional[Frag]:
-        from .inline import InlineBlock, has_jump
+        from .inline import InlineBlock, has_jump, yield_is_tail
         if isinstance(s, (ast.With, ast.AsyncWith)):
-            if len(s.items) != 1 or has_jump(s.body):
+            if len(s.items) != 1:
                 return None
             item = s.items[0]
             site = item.context_expr
-            t = self.inliner.target(self.fi, site, self._inline_stack, "with")
+            t = self.inliner.target(self._resolve_fi(), site, self._inline_stack, "with")
             if t is None:
+                return None
+            if has_jump(s.body) and not yield_is_tail(t.node):
+                # a return/break in the block would skip what the context manager does after its yield
+                self.inliner.declined[t.qualname] = "block leaves through return/break and the context manager has code after its yield"
+                self.inliner.declined_sites[t.qualname] = self.inliner.declined_sites.get(t.qualname, 0) + 1
                 return None
             pre, body, _ret = self.inliner.instantiate(self.fi, t, site, self._names_used(), want_ret=False)
             body = self.inliner.splice_yields(body, item.optional_vars, list(s.body), "with")
@@ -956,7 +1158,7 @@ class CFG:
             if s.orelse:
                 return None
             site = s.iter
-            t = self.inliner.target(self.fi, site, self._inline_stack, "for")
+            t = self.inliner.target(self._resolve_fi(), site, self._inline_stack, "for")
             if t is None:
                 return None
             pre, body, _ret = self.inliner.instantiate(self.fi, t, site, self._names_used(), want_ret=False)
